@@ -282,7 +282,7 @@ def twins(rng, var_pool, budget=5):
     others = [w for w in var_pool if w not in (a, b)] or [a]
     for _ in range(20):
         t = rexpr(rng, budget, others, p_const=0.5)
-        if respell(t) != t:
+        if sx.to_sx(respell(t)) != sx.to_sx(t):
             break
     else:
         t = ('Add', [('V', others[0]), ('C', 1)])
